@@ -1222,18 +1222,58 @@ class Interp:
             return base
         raise Unsupported('pattern form in ${x##...}')
 
-    def literal_pattern(self, pat, what):
-        """A pattern that came from an unquoted expansion: literal only if it has no glob chars."""
+    def unquoted_tokens(self, pat, what):
+        """A pattern that came from an unquoted expansion: None if it is literal text (then the literal value
+        is literal_value(pat)), else its glob tokens."""
         if isinstance(pat, Quoted):
-            return pat.inner
+            return None
         if isinstance(pat, str):
             if any(c in pat for c in '*?[\\'):
-                raise Unsupported('glob characters in %s pattern %r' % (what, pat))
-            return pat
-        if not self.glob_free:
-            raise Unsupported('symbolic pattern with glob-capable alphabet at %s' % what)
-        self.sites.add(what)
-        return pat
+                return sym.parse_glob(pat)
+            return None
+        if self.glob_free:
+            self.sites.add(what)
+            return None
+        if not any(c in w.alphabet for w in sym.words_of(pat) for c in '*?'):
+            return None
+        return self.glob_tokens(pat)
+
+    def glob_tokens(self, pat):
+        """Tokens of an unquoted pattern whose text is symbolic: which positions hold * or ? is decided per
+        path; the other characters stay symbolic. ([ and backslash are outside the alphabet.)"""
+        for w in sym.words_of(pat):
+            if any(c in w.alphabet for c in '[\\'):
+                raise Unsupported('symbolic pattern over an alphabet with [ or backslash')
+        asg = self.concretize(pat)
+        toks = []
+        for ch in sym.expand(pat, asg):
+            if isinstance(ch, str):
+                t = sym.parse_glob(ch)[0]
+            elif self.decide(sym.char_eq(ch, '*')):
+                t = ('star',)
+            elif self.decide(sym.char_eq(ch, '?')):
+                t = ('any1',)
+            else:
+                t = ('c', ch)
+            if t == ('star',) and toks and toks[-1] == ('star',):
+                continue
+            toks.append(t)
+        return toks
+
+    def remove_glob(self, base, toks, prefix):
+        """${x#pattern} / ${x%pattern} (shortest match) with glob tokens"""
+        if isinstance(base, str):
+            bc = list(base)
+        else:
+            asg = self.concretize(base)
+            bc = sym.expand(base, asg)
+        n = len(bc)
+        for k in range(n + 1):
+            part = bc[:k] if prefix else bc[n - k:]
+            if self.decide(sym.glob_match_seq(toks, part)):
+                rest = bc[k:] if prefix else bc[:n - k]
+                return self.from_chars(rest) if not isinstance(base, str) else ''.join(rest)
+        return base
 
     def pattern_value(self, w):
         """-> (value, quoted): quoted = every part of the pattern word is quoted, i.e. it is literal text"""
@@ -1242,7 +1282,11 @@ class Interp:
 
     def remove_suffix(self, base, pat, quoted=False):
         if not quoted:
-            pat = self.literal_pattern(pat, '${x%pat}')
+            toks = self.unquoted_tokens(pat, '${x%pat}')
+            if toks is not None:
+                return self.remove_glob(base, toks, prefix=False)
+            if isinstance(pat, Quoted):
+                pat = pat.inner
         elif isinstance(pat, (Quoted, SymLen)):
             raise Unsupported('marker in quoted pattern')
         if isinstance(base, str) and isinstance(pat, str):
@@ -1257,7 +1301,11 @@ class Interp:
 
     def remove_prefix(self, base, pat, quoted=False):
         if not quoted:
-            pat = self.literal_pattern(pat, '${x#pat}')
+            toks = self.unquoted_tokens(pat, '${x#pat}')
+            if toks is not None:
+                return self.remove_glob(base, toks, prefix=True)
+            if isinstance(pat, Quoted):
+                pat = pat.inner
         elif isinstance(pat, (Quoted, SymLen)):
             raise Unsupported('marker in quoted pattern')
         if isinstance(base, str) and isinstance(pat, str):
@@ -1354,10 +1402,29 @@ class Interp:
                 elif isinstance(v, str):
                     pieces.append(('glob', v))
                 else:
-                    if not self.glob_free:
-                        raise Unsupported('symbolic pattern with glob-capable alphabet')
-                    self.sites.add('[[ x == $symbolic ]]')
-                    pieces.append(('lit', v))
+                    toks = self.unquoted_tokens(v, '[[ x == $symbolic ]]')
+                    if toks is None:
+                        pieces.append(('lit', v))
+                    else:
+                        pieces.append(('toks', toks))
+        if any(kind == 'toks' for kind, _ in pieces):
+            toks = []
+            for kind, v in pieces:
+                if kind == 'toks':
+                    new = v
+                elif kind == 'glob':
+                    new = sym.parse_glob(v)
+                elif isinstance(v, str):
+                    new = [('c', c) for c in v]
+                else:
+                    new = [('c', c) for c in sym.expand(v, self.concretize(v))]
+                for t in new:
+                    if t == ('star',) and toks and toks[-1] == ('star',):
+                        continue
+                    toks.append(t)
+            if isinstance(subject, str):
+                return self.decide(sym.glob_match_seq(toks, list(subject)))
+            return self.decide(sym.glob_match(toks, subject))
         all_concrete = all(isinstance(v, str) for _, v in pieces)
         if all_concrete:
             pat = ''.join((v if kind == 'glob' else ''.join('\\' + c for c in v)) for kind, v in pieces)
